@@ -389,8 +389,12 @@ def pred_c11(tr, story):
             if r[0] != "cancelled":
                 v.append(("C11/cancel", f"call {cid} was cancelled by its caller but ended with {r}", c["end"]))
         elif exp == "closed":
+            late_timer = any(l == f"timer:c{cid}" for l, _, _ in steps[c["end"] + 1:])
             if r[0] != "err" or not r[1].startswith("L."):
                 v.append(("C11/close-error", f"call {cid} was pending when the connection closed and ended with {r}, expected the connection's error", c["end"]))
+            elif r[1] == "L.Timeout" and late_timer:
+                v.append(("C11/close-error", f"call {cid} was pending when the connection closed, yet it only ended when its own timeout fired afterwards ({r[1]}): "
+                          "the close did not fail it with the connection's error", c["end"]))
         elif exp == "pending" and r[0] != "pending":
             v.append(("C11/spurious-completion", f"call {cid} completed with {r} although no stop message, timeout, cancel or close occurred", len(steps) - 1))
     # leftovers at quiescent points: handlers of finished calls, request timers
@@ -604,6 +608,20 @@ def window_stories():
         story(est + [CALLS[1], ("drain",), ("hop", hops, ("cancel", "C1")), ("hop", hops, ("data", [H(GR, tag=3)]))])
         story(est + [CALLS[1], CALLS[2], ("drain",), ("hop", hops, ("data", [H(GR, tag=3)])), ("hop", hops, ("lost", "R.Reset"))])
         story(est + [CALLS[1], CALLS[2], ("drain",), ("hop", hops, ("eof",)), ("hop", hops, ("data", [H(GR, tag=3)]))])
+    # several calls waiting, one of them answered in the very chunk that also closes the connection
+    for closer in ([H(DISC_REQ)], [("bp", 0)], [H(SWITCH_STATE, valid=0)]):
+        for answer in (H(GR, tag=3), H(GR, tag=4), H(10)):
+            # (which of the waiting calls is the answered one decides where its future sits among the waiters)
+            story(est + [CALLS[1], CALLS[2], CALLS[0], ("drain",), ("data", [answer] + closer), ("drain",), ("adv_next",), ("drain",)])
+            story(est + [CALLS[0], CALLS[1], CALLS[2], CALLS[3], ("drain",), ("data", [answer] + closer), ("drain",), ("adv_next",), ("drain",)])
+        story(est + [CALLS[1], CALLS[2], ("drain",), ("data", [H(GR, tag=4)] + closer), ("drain",), ("adv_next",), ("drain",)])
+    # a call that lists a response type twice, next to a call waiting for the same type: ending the first must not disturb the second
+    DI, DIR = 9, 10
+    story(est + [("call", [DI], [DIR, DIR], "any", "any", 5120), ("call", [DI], [DIR], "any", "any", 20480), ("drain",), ("cancel", "C1"), ("drain",),
+                 ("data", [H(DIR)]), ("drain",)])
+    story(est + [("call", [DI], [DIR, DIR], "any", "any", 5120), ("call", [DI], [DIR], "any", "any", 20480), ("drain",), ("adv_next",), ("drain",),
+                 ("data", [H(DIR)]), ("drain",)])
+    story(est + [("call", [GR - 1], [GR, GE, GR], "tag=3", "tag=3", 5120), CALLS[2], ("drain",), ("data", [H(GR, tag=3)]), ("drain",), ("data", [H(GR, tag=4)]), ("drain",)])
     story(est + [CALLS[1], ("drain",), ("adv_next",), ("drain",), ("adv_next",), ("drain",), ("data", [H(GR, tag=3)])], keepalive=40960)
     story(est + [CALLS[1], CALLS[2], ("drain",), ("cancel", "C1"), ("drain",), ("data", [H(GR, tag=4)]), ("force",)])
     story(est + [CALLS[1], CALLS[2], ("drain",), ("force",), ("drain",)])
